@@ -74,6 +74,8 @@ def build(S, tier, seed):
                      purge.PARSE_PATH_LOOP: purge.parse_path_loop_annot()})
     act = [trashdirs.VolumeOf().key, trashdirs.HomeTrashDirPath().key]
     c03.build(S, tier, seed)            # writer text, readers, byte lemmas
+    put.leaf_vcs(S)
+    purge.leaf_vcs(S)
     put.trash_file_in_vc(S, conservation=False)
     readers.restore_reader_vc(S)
     trashdirs.restore_dirs_vc(S)
